@@ -312,9 +312,9 @@ impl TransactionGuard {
     pub(crate) fn allocate_read(
         tracker: Arc<TransactionTracker>,
         mem: &TransactionalMemory,
-    ) -> Result<Self> {
-        let id = tracker.register_read_transaction(mem)?;
-        Ok(Self::new_read(id, tracker))
+    ) -> Result<(Self, Option<BtreeHeader>)> {
+        let (id, root) = tracker.register_read_transaction(mem)?;
+        Ok((Self::new_read(id, tracker), root))
     }
 
     pub(crate) fn new_write(
@@ -435,7 +435,7 @@ impl Sealed for ReadOnlyDatabase {}
 #[cfg(not(redb_no_std))]
 impl ReadableDatabase for ReadOnlyDatabase {
     fn begin_read(&self) -> Result<ReadTransaction, TransactionError> {
-        let id = self
+        let (id, root) = self
             .transaction_tracker
             .register_read_transaction(&self.mem)?;
         #[cfg(feature = "logging")]
@@ -443,7 +443,7 @@ impl ReadableDatabase for ReadOnlyDatabase {
 
         let guard = TransactionGuard::new_read(id, self.transaction_tracker.clone());
 
-        ReadTransaction::new(self.mem.clone(), guard)
+        ReadTransaction::new(self.mem.clone(), guard, root)
     }
 
     fn cache_stats(&self) -> CacheStats {
@@ -554,12 +554,13 @@ impl Sealed for Database {}
 
 impl ReadableDatabase for Database {
     fn begin_read(&self) -> Result<ReadTransaction, TransactionError> {
-        let guard = TransactionGuard::allocate_read(self.transaction_tracker.clone(), &self.mem)?;
+        let (guard, root) =
+            TransactionGuard::allocate_read(self.transaction_tracker.clone(), &self.mem)?;
         #[cfg(feature = "logging")]
         debug!("Beginning read transaction id={:?}", guard.id());
         #[cfg(redb_verif)]
         crate::verif::point("begin_read.after_register", &[("id", guard.id().raw_id())]);
-        ReadTransaction::new(self.get_memory(), guard)
+        ReadTransaction::new(self.get_memory(), guard, root)
     }
 
     fn cache_stats(&self) -> CacheStats {
